@@ -31,6 +31,7 @@ from .sym import (
     bcat,
     blen,
     is_z3,
+    list_elem,
     to_z3,
     zand,
     znot,
@@ -111,8 +112,8 @@ def fresh_like(v, name):
         return Opt(fresh(name + "_none", BOOL), fresh_like(v.val, name))
     if isinstance(v, tuple):
         return tuple(fresh_like(x, "%s_%d" % (name, i)) for i, x in enumerate(v))
-    if v is None:
-        raise Unsupported("cannot havoc %s: it is None at loop entry (give a typed havoc in the loop contract)" % name)
+    if v is None or isinstance(v, str):
+        raise Unsupported("cannot havoc %s: it is %r at loop entry (give a typed havoc in the loop contract)" % (name, v))
     return v  # references keep their identity; object contents are havocked explicitly
 
 
@@ -307,7 +308,7 @@ class Lib(object):
         if isinstance(it, Ref):
             o = p.obj(it)
             if o.cls == "list" and "len" in o.f:
-                return p, SeqView(o.f["len"], o.f["elem"])
+                return p, SeqView(o.f["len"], list_elem(o))
             h = self.methods.get((o.cls, "__iter__"))
             if h:
                 return h(ex, p, it, ln)
@@ -515,7 +516,10 @@ class Lib(object):
                 return [(p, p.new_obj("list", dict(p.obj(v).f)))]
             p2, view = self.seq_of(ex, v, p, fctx, ln)
             p2 = p2.fork()
-            return [(p2, p2.new_obj("list", {"len": view.n, "elem": view.elem, "facts": view.facts}))]
+            flds = {"len": view.n, "elem": view.elem, "facts": view.facts}
+            if getattr(view, "joinpre", None) is not None:
+                flds["joinpre"] = view.joinpre  # joinpre(k) = concatenation of the first k elements
+            return [(p2, p2.new_obj("list", flds))]
         if name == "tuple":
             (v,) = args
             return [(p, tuple(ex.iter_concrete(v, p)))]
@@ -525,7 +529,7 @@ class Lib(object):
                 return [(p, tuple(reversed(p.obj(v).f["items"])))]
             if isinstance(v, Ref) and "len" in p.obj(v).f:
                 o = p.obj(v)
-                n, el = o.f["len"], o.f["elem"]
+                n, el = o.f["len"], list_elem(o)
                 return [(p, SeqView(n, lambda i, n=n, el=el: el(n - 1 - i)))]
             raise Unsupported("reversed of a symbolic list")
         if name == "bytearray":
@@ -633,7 +637,11 @@ class Lib(object):
                     o.f["items"].append(args[0])
                 else:
                     h2 = o.f.get("on_append")
-                    if h2 is None:
+                    if "arr" in o.f:
+                        n0 = o.f["len"]
+                        o.f["arr"] = z3.Store(o.f["arr"], n0, to_z3(args[0]))
+                        o.f["len"] = n0 + 1
+                    elif h2 is None:
                         n0 = o.f["len"]
                         old = o.f["elem"]
                         v0 = args[0]
@@ -660,7 +668,7 @@ class Lib(object):
                 ex.oblige(p, "pop-from-nonempty", n0 >= 1, ln, "safety")
                 if args and args[0] != -1:
                     raise Unsupported("pop at a position of an abstract list")
-                v = o.f["elem"](n0 - 1)
+                v = list_elem(o)(n0 - 1)
                 o.f["len"] = n0 - 1
                 p.mut += 1
                 return [(p, v)]
@@ -702,6 +710,23 @@ class Lib(object):
             if name == "add":
                 p = p.fork()
                 return [(self.map_store(ex, p, recv, args[0], 1, ln), None)]
+        if cls == "dict" and name == "update" and len(args) == 1 and isinstance(args[0], Ref) and p.obj(args[0]).cls == "dict":
+            # d.update(e), both maps over integer keys: union of the domains, e wins
+            p = p.fork()
+            o, e = p.obj(recv), p.obj(args[0])
+            k = z3.Int("k!upd")
+            empty = z3.is_const_array(o.f["dom"]) and z3.is_false(o.f["dom"].arg(0))
+            if empty:
+                o.f["dom"], o.f["val"], o.f["n"] = e.f["dom"], e.f["val"], e.f["n"]
+            else:
+                n = fresh("n_updated", INT)
+                p.assume(z3.And(n >= o.f["n"], n >= e.f["n"], n <= o.f["n"] + e.f["n"]))
+                d0, v0 = o.f["dom"], o.f["val"]
+                o.f["dom"] = z3.Lambda([k], z3.Or(z3.Select(d0, k), z3.Select(e.f["dom"], k)))
+                o.f["val"] = z3.Lambda([k], z3.If(z3.Select(e.f["dom"], k), z3.Select(e.f["val"], k), z3.Select(v0, k)))
+                o.f["n"] = n
+            p.mut += 1
+            return [(p, None)]
         if cls in ("dict", "Counter"):
             if name == "get":
                 kz = self._key(args[0])
@@ -762,6 +787,8 @@ class Lib(object):
                         return [(p, bcat(*items) if items else acc)]
                 if "join" in o.f and recv == b"":
                     return [(p, o.f["join"])]
+                if "joinpre" in o.f and recv == b"":
+                    return [(p, o.f["joinpre"](o.f["len"]))]
                 if "len" in o.f:
                     return [(p, fresh("joined", BYTES))]  # abstract: contents forgotten
             raise Unsupported("join line %s" % ln)
